@@ -335,8 +335,9 @@ class SecureField(Field):
                 raise ValueError("invalid ciphertext")
 
             try:
-                ciphertext = base64.b64decode(ciphertext_b64)
-            except binascii.Error as err:
+                # validate=True: characters outside the base64 alphabet are an error, not skipped
+                ciphertext = base64.b64decode(ciphertext_b64, validate=True)
+            except (binascii.Error, ValueError) as err:
                 raise ValueError("invalid ciphertext") from err
 
             try:
